@@ -134,6 +134,14 @@ func (g *RoutingGen) Run(nOps int) {
 			}
 			continue
 		}
+		if i%12 == 6 && g.r.Chance(40) {
+			// a rule set written on a branch of the state that is then discarded (a failing
+			// transaction, a simulation): the stored rules — and what they authorise — stay as they were
+			cctx, _ := c.GetContext().CacheContext()
+			_ = c.App.TIBCKeeper.RoutingKeeper.SetRoutingRules(cctx, []string{"*,*,*"})
+			_ = c.App.TIBCKeeper.RoutingKeeper.SetRoutingRules(cctx, []string{g.r.ident(3) + ",*,*"})
+			g.stats["rules.set-on-discarded-branch"]++
+		}
 		// a triple: mostly derived from a stored rule so that matches are frequent
 		s, d, p := g.r.ident(4), g.r.ident(4), g.r.ident(4)
 		if len(stored) > 0 && g.r.Chance(75) {
